@@ -11,6 +11,7 @@ import (
 	"github.com/tokenized/specification/dist/golang/actions"
 	"github.com/tokenized/specification/dist/golang/protocol"
 	"github.com/tokenized/spynode/internal/spynode"
+	"github.com/tokenized/spynode/pkg/client"
 )
 
 func init() {
@@ -91,6 +92,28 @@ func runFilter(c *Case) ([]Obs, any) {
 				return Obs{OK}
 			case "unsubscribe":
 				if err := node.UnsubscribePushDatas(ctx, op.ByteLists(0)); err != nil {
+					return Obs{ERR}
+				}
+				return Obs{OK}
+			case "subaddress": // [[20-byte hash]...] single : the client's helper for an address (one hash: a PKH
+				// address, several: a multi-PKH address); single != 0: SubscribeAddress, else SubscribeAddresses
+				pkhs := op.ByteLists(0)
+				var ra bitcoin.RawAddress
+				var err error
+				if len(pkhs) == 1 {
+					ra, err = bitcoin.NewRawAddressPKH(pkhs[0])
+				} else {
+					ra, err = bitcoin.NewRawAddressMultiPKH(1, pkhs)
+				}
+				if err != nil {
+					panic(harnessErr("address: " + err.Error()))
+				}
+				if op.Int(1) != 0 {
+					err = client.SubscribeAddress(ctx, ra, node)
+				} else {
+					err = client.SubscribeAddresses(ctx, []bitcoin.RawAddress{ra}, node)
+				}
+				if err != nil {
 					return Obs{ERR}
 				}
 				return Obs{OK}
